@@ -257,6 +257,16 @@ def gen_one(r, i, tier):
     for _ in range(2 if tier == "quick" else 4):
         md, mdoc = mutate_doc(r, doc)
         if mdoc is not None:
+            # a mutation may make siblings that share one "...:type" field differ in a structural
+            # parameter; the constructors of the immutable form then refuse the document (their
+            # copy() of a flow child adds it to its own zero()).  Such documents belong to C15, not to
+            # a comparison of two reloads: only documents the reader accepts are used here
+            try:
+                import histogrammar as hg
+                hg.Factory.fromJson(copy.deepcopy(mdoc))
+            except Exception:  # noqa: BLE001
+                mdoc = None
+        if mdoc is not None:
             ops.append(("fromjson", mdoc))
             eq(r1, nxt, "reload == reload of mutated document: %s" % md)
             nxt += 1
